@@ -120,7 +120,7 @@ theorem invoke_cases (cfg : Cfg) (x : Item) (s : St) :
     (r.2 = none ∧ invoke cfg x s = (r.1, none)) ∨
     (∃ e, r.2 = some e ∧ x.wrapped = false ∧ invoke cfg x s = (r.1, some e)) ∨
     (∃ e, r.2 = some e ∧ x.wrapped = true ∧
-      invoke cfg x s = ({ r.1 with hlog := r.1.hlog ++ [e] }, if cfg.handler e then none else some e)) := by
+      invoke cfg x s = ({ r.1 with hlog := r.1.hlog ++ [e] }, if cfg.handler r.1.hlog.length e then none else some e)) := by
   intro r
   simp only [invoke]
   rcases hr : r with ⟨s1, o⟩
